@@ -698,6 +698,7 @@ func isCongested(peer *Peer) bool {
 }
 
 func writeEvent(peer *Peer, m TorEvent) {
+	verifYield("writeEvent")
 	if len(peer.events) == 0 {
 		select {
 		case peer.torEvent <- m:
